@@ -89,6 +89,14 @@ let handle (f : string array) : string =
   | "P" ->
     let pub = (z_of_str f.(2), z_of_str f.(3)) in
     b2s (publicKey_Verify pub (bytes_of_hex f.(4)) (bytes_of_hex f.(5)))
+  | "W" ->
+    (* consumer leg of C01: gmtls verifyHandshakeSignature (kinds s, e) and x509 CheckSignature (kind x) *)
+    let pub = (z_of_str f.(3), z_of_str f.(4)) in
+    let msg = bytes_of_hex f.(5) and sg = bytes_of_hex f.(6) in
+    b2s (match f.(2) with
+         | "s" -> verifyHandshakeSignature_sm2 pub msg sg
+         | "e" -> verifyHandshakeSignature_ecdsa pub msg sg
+         | _ -> x509_checkSignature_sm2 pub msg sg)
   | "D" when Array.length f = 6 ->
     let pub = (z_of_str f.(2), z_of_str f.(3)) in
     show (fun d -> "ok " ^ hex_of_bytes d) (sm3Digest pub (bytes_of_hex f.(5)) (bytes_of_hex f.(4)))
@@ -110,6 +118,17 @@ let handle (f : string array) : string =
   | "DP" ->
     let pr = key_of (z_of_str f.(2)) in
     show (fun m -> "ok " ^ hex_of_bytes m) (privateKey_Decrypt pr (bytes_of_hex f.(3)))
+  | "T" ->
+    (* consumer leg of C02: eccKeyAgreementGM.processClientKeyExchange *)
+    let pr = key_of (z_of_str f.(2)) in
+    show (fun m -> "ok " ^ hex_of_bytes m) (processClientKeyExchange pr (bytes_of_hex f.(3)))
+  | "Q" ->
+    (* consumer leg of C02: PKCS#7 enveloped data, key transport by SM2: the content comes out iff the
+       wrapped key decrypts (the symmetric layer belongs to C17) *)
+    let pr = key_of (z_of_str f.(2)) in
+    (match decrypt pr (bytes_of_hex f.(4)) (ZZ.of_string f.(3)) with
+     | Ok _ -> "ok " ^ f.(5)
+     | Err _ -> "err" | Panic -> "PANIC" | Hang -> "HANG")
   | "M" -> show (fun m -> "ok " ^ hex_of_bytes m) (cipherMarshal (bytes_of_hex f.(2)))
   | "U" -> show (fun m -> "ok " ^ hex_of_bytes m) (cipherUnmarshal (bytes_of_hex f.(2)))
   (* ---- C13 ---- *)
